@@ -47,21 +47,22 @@ HOOK_COMMITS = []
 NOT_YET = {}
 
 PROPS["C16"] = dict(
-    level="model_checking", leak_every=25, exhaustive=True,
+    level="model_checking", leak_every=25, exhaustive=True, call_timeout=20,
     stages=lambda tier, seed: [
         mc("seq", "MC_C16", "MC_C16_%s.cfg" % tier, expand=G.under_provider(4)),
         gen("walk", G.c16_walks(40 if tier == "quick" else 600, 300), dopts=TRACK),
     ],
     rule=
          "all sequences of keyring mutators up to MaxLen (4 quick / 5 thorough) over an alphabet of 7 loads and removals "
-         "at first/second/last/out-of-range positions, free_bad, free_all, (keys that own provider objects among them; "
-         "every fourth sequence also under GnuTLS), each followed by a full read-back that starts and ends with a get at "
-         "index 2 and is not ascending (item_get 2, 3, 1, 0, 7, 2^32 + k, count, find x7 (exact, other, shorter, longer, "
-         "other case, empty, errored item's kid), error_any, item_get 1, 2); the driver re-reads the list from the last "
-         "index down after every mutator, enumerated by TLC from MC_C16; every load must append exactly one item per "
-         "element of its document, whatever state (sticky error, emptied list) the keyring was in (clause "
-         "C16.append-all); plus seeded random walks of 300 operations through every load entry point. distinct = distinct"
-         " script hashes; every case is non-trivial (it contains at least one judged list operation).",
+         "at first/second/last/out-of-range positions, free_bad, free_all, (keys that own provider objects among them, "
+         "and an EC private key whose d is too long: an errored item that got as far as a provider-side key object; every"
+         " fourth sequence also under GnuTLS), each followed by a full read-back that starts and ends with a get at index"
+         " 2 and is not ascending (item_get 2, 3, 1, 0, 7, 2^32 + k, count, find x7 (exact, other, shorter, longer, other"
+         " case, empty, errored item's kid), error_any, item_get 1, 2); the driver re-reads the list from the last index "
+         "down after every mutator, enumerated by TLC from MC_C16; every load must append exactly one item per element of"
+         " its document, whatever state (sticky error, emptied list) the keyring was in (clause C16.append-all); plus "
+         "seeded random walks of 300 operations through every load entry point. distinct = distinct script hashes; every "
+         "case is non-trivial (it contains at least one judged list operation).",
     assumptions=ASSUME_COMMON,
     level_text="TLC explores every sequence of keyring operations up to the bound on the specification (list invariants checked there) and every one of those behaviours is replayed into libjwt; each observed list (ids by pointer identity, counts, find results, return values) must equal the model's after every operation. Exhaustive up to the bound, sampled (seeded walks) beyond it.",
     level_note="Bounded: sequences of <= 4 (quick) / 5 (thorough) mutators over a 2-kid alphabet; use-after-free and leaks are observed by ASan/LSan on the executed sequences only (leak check every 25 cases and at exit).",
@@ -169,20 +170,21 @@ PROPS["C01"] = dict(
          "matrix from MC_C01: (key, algorithm) pairs covering oct, RSA (PKCS1 and PSS, incl. an RSA-PSS typed key), "
          "P-256/384/521, secp256k1, Ed25519, Ed448, plus HS* pinned explicitly on RSA/EC/OKP public keys (admitted by the"
          " setkey table, never verifiable) x both providers x signature class {valid, non-canonical base64 of the same "
-         "bytes, empty, garbage of two lengths, not base64, duplicated, bit flipped at first/last/random position, "
-         "truncated by 1/2, extended by random/zero bytes, signed over header only / payload only / with trailing dot / "
-         "swapped segments / other text / the decoded JSON, by another key, by the same key under a sibling algorithm, "
-         "ES: r and s zero-extended to wider widths, DER; HS: HMAC under empty and all-zero keys and, for public keys, "
-         "under the PEM text; a genuine MAC that begins with / contains a zero octet offered with every later octet "
-         "changed} + header/payload altered after signing + the genuine signature as LAST segment behind extra ones "
-         "(h.p.AAAA.s, h.p..s, h.p.x.y.s, h.p.s.s, h.p.s.AAAA, h.p.s.) + header re-targeted to alg none; each cell "
-         "concretised 3 (quick) / 300 (thorough) times with seed-drawn positions. Signatures are made by the driver's own"
-         " signer. Stage 'rotation': a checker holds public key A and accepts A's token; A's keyring is freed, key B "
-         "loaded and given to the checker: A's token must be refused and B's accepted, seven key pairs x both providers x"
-         " 2..3 (quick) / up to 11 (thorough) rotations, run with a zero ASan quarantine so that freed addresses are "
-         "reused at once. Callback scripts: a checker pinned to key A whose callback selects key B for exactly one token "
-         "(B's token accepted), callback removed: B's token must be refused again and A's accepted, over 6 key pairs x "
-         "both providers. Refused configuration: after a setkey that is refused (algorithm of another family, algorithm "
+         "bytes, empty, garbage of two lengths, not base64, duplicated, the genuine signature TEXT followed by 1, 4, 255,"
+         " 256, 512, 1024 and 65536 more characters of the alphabet, bit flipped at first/last/random position, truncated"
+         " by 1/2, extended by random/zero bytes, signed over header only / payload only / with trailing dot / swapped "
+         "segments / other text / the decoded JSON, by another key, by the same key under a sibling algorithm, ES: r and "
+         "s zero-extended to wider widths, DER; HS: HMAC under empty and all-zero keys and, for public keys, under the "
+         "PEM text; a genuine MAC that begins with / contains a zero octet offered with every later octet changed} + "
+         "header/payload altered after signing + the genuine signature as LAST segment behind extra ones (h.p.AAAA.s, "
+         "h.p..s, h.p.x.y.s, h.p.s.s, h.p.s.AAAA, h.p.s.) + header re-targeted to alg none; each cell concretised 3 "
+         "(quick) / 300 (thorough) times with seed-drawn positions. Signatures are made by the driver's own signer. Stage"
+         " 'rotation': a checker holds public key A and accepts A's token; A's keyring is freed, key B loaded and given "
+         "to the checker: A's token must be refused and B's accepted, seven key pairs x both providers x 2..3 (quick) / "
+         "up to 11 (thorough) rotations, run with a zero ASan quarantine so that freed addresses are reused at once. "
+         "Callback scripts: a checker pinned to key A whose callback selects key B for exactly one token (B's token "
+         "accepted), callback removed: B's token must be refused again and A's accepted, over 6 key pairs x both "
+         "providers. Refused configuration: after a setkey that is refused (algorithm of another family, algorithm "
          "without a key, a key whose alg attribute contradicts, INVAL) the unsigned, the stripped and another key's token"
          " stay refused and the genuine one accepted, 4 key pairs x 6 refused calls x both providers. Tokens reach the "
          "library in heap blocks of exactly their size. distinct = distinct cells x reps.",
@@ -206,8 +208,11 @@ PROPS["C09"] = dict(
          "ES algorithm; Ed25519 and Ed448; algorithm x key of another kind altogether (EdDSA/ES256/RS256/HS256 with EC, "
          "RSA, OKP and oct keys, token signed genuinely under the key's own algorithm); each through generate (private "
          "key), verify of the generated token and verify of a token signed by the driver's own signer (public key), on "
-         "OpenSSL and GnuTLS. Both directions are judged: below the floor never succeeds, at or above it works. distinct "
-         "= distinct cells.",
+         "OpenSSL and GnuTLS. Reuse scripts: one checker, the same key first under the algorithm it is made for "
+         "(accepted), then - through setkey or the callback - under an algorithm that asks for more (ES256 -> "
+         "ES384/ES512, ES384 -> ES512, HS256 -> HS384/HS512, ...) with a token genuinely signed with that hash by that "
+         "key, then the first token again. Both directions are judged: below the floor never succeeds, at or above it "
+         "works. distinct = distinct cells.",
     assumptions=ASSUME_COMMON,
     level_text="The matrix is finite and enumerated completely (every oct length in thorough); TLC shows the reference "
                "outcome satisfies C09 on every cell and every cell is executed against libjwt.",
@@ -221,16 +226,17 @@ PROPS["C14"] = dict(
     level="model_checking", exhaustive=True,
     stages=lambda tier, seed: [mc("causes", "MC_C14", "MC_C14_%s.cfg" % tier), gen("apiwalk", G.api_walks(300 if tier == "quick" else 20000, 60), dopts=TRACK)],
     rule=
-         "one script per failure cause from MC_C14: 40 failing token classes (NULL/empty, missing dots, header not "
-         "base64 / not JSON / not an object / without or with non-string or unknown alg, payload not base64 / not JSON, "
-         "unsigned, bit-flipped / garbage / non-base64 / truncated / wrong-key / wrong-alg signature, expired, not yet "
-         "valid, exp/nbf of wrong type, altered payload) under HS256 and RS256 (and ES256 in thorough), each as ok-fail-"
-         "ok-fail-clear-fail on one checker; 12 policy causes (no key, refused setkey, iss/aud mismatch, callback error,"
-         " callback-selected inadmissible key/alg, key below floor, wrong family, unknown alg attribute); 17 builder "
-         "causes, plus five keys that failed to import but still say \"private\" given to the builder by setkey and by its"
-         " callback under four algorithms; 23 JWK defects; value set/get calls incl. string values that are not UTF-8 on"
-         " a fresh name, on an existing one with and without replace, and from a generate callback (every request "
-         "carries a stale error code in its jwt_value_t). distinct = distinct scripts.",
+         "one script per failure cause from MC_C14: 40 failing token classes (NULL/empty, missing dots, header not base64"
+         " / not JSON / not an object / without or with non-string or unknown alg (incl. names of 239, 240, 241, 300 and "
+         "5000 characters: longer than any message buffer), payload not base64 / not JSON, unsigned, bit-flipped / "
+         "garbage / non-base64 / truncated / wrong-key / wrong-alg signature, expired, not yet valid, exp/nbf of wrong "
+         "type, altered payload) under HS256 and RS256 (and ES256 in thorough), each as ok-fail-ok-fail-clear-fail on one"
+         " checker; 12 policy causes (no key, refused setkey, iss/aud mismatch, callback error, callback-selected "
+         "inadmissible key/alg, key below floor, wrong family, unknown alg attribute); 17 builder causes, plus five keys "
+         "that failed to import but still say \"private\" given to the builder by setkey and by its callback under four "
+         "algorithms; 28 JWK defects (incl. unknown kty / crv values of 300 characters); value set/get calls incl. string"
+         " values that are not UTF-8 on a fresh name, on an existing one with and without replace, and from a generate "
+         "callback (every request carries a stale error code in its jwt_value_t). distinct = distinct scripts.",
     assumptions=ASSUME_COMMON,
     level_text="Every externally reachable failure cause the specification knows (its reject classes) is enumerated by "
                "TLC and executed; after each call the return value, the error flag and the message-non-empty bit "
@@ -252,13 +258,15 @@ PROPS["C04"] = dict(
          "from MC_C04: boundary lattice exp - (now - leeway) and nbf - (now + leeway) in {-2..2} for now in {0, 1.7e9, "
          "2^40} x leeway in {-1, 0, 1, 300, 2^31, 2^40}, far values and 64-bit extremes, defaults without any "
          "configuration call, both claims at once, every JSON type in place of exp/nbf, 26 expected/actual string pairs "
-         "(prefix, suffix, case, empty, non-ASCII, embedded NUL, wrong type, absent; values of 255..65536 characters "
-         "that are equal, differ in the last character only, or are a prefix of one another) for iss/sub/aud, all "
-         "combinations of three string checks; all sequences of up to 2 (quick) / 3 (thorough) configuration calls over "
-         "a 14-call alphabet (incl. refused calls: leeway for iat, claim_set / claim_del for exp and nbf) followed by "
-         "five probe tokens; every case with an unsigned and an HS256-signed token. Plus seeded random cases with "
-         "uniformly drawn 64-bit exp/nbf, clocks and leeways. 64-bit values are compared in TLC as limb triples "
-         "(Wide.tla). distinct = distinct scripts.",
+         "(prefix, suffix, case, empty, non-ASCII, embedded NUL, wrong type, absent; values of 255..65536 characters that"
+         " are equal, differ in the last character only, or are a prefix of one another) for iss/sub/aud, all "
+         "combinations of three string checks; all sequences of up to 2 (quick) / 3 (thorough) configuration calls over a"
+         " 14-call alphabet (incl. refused calls: leeway for iat, claim_set / claim_del for exp and nbf) followed by five"
+         " probe tokens; callback scripts: a callback that adds, corrects or removes iss/sub/aud/exp/nbf on the token "
+         "object it is handed, against tokens that lack, miss or meet the expectation (the checks are made on what the "
+         "token carries); every case with an unsigned and an HS256-signed token. Plus seeded random cases with uniformly "
+         "drawn 64-bit exp/nbf, clocks and leeways. 64-bit values are compared in TLC as limb triples (Wide.tla). "
+         "distinct = distinct scripts.",
     assumptions=ASSUME_COMMON,
     level_text="Exhaustive on the boundary lattice and the bounded configuration histories (TLC shows the reference "
                "satisfies C04 there), every case executed against libjwt and judged in both directions: accepted "
@@ -280,8 +288,9 @@ PROPS["C19"] = dict(
          "and failing each check, bad signature, unsigned, other key); two verifications on one checker (with and without"
          " its own key): the first callback selects another key, the second (a successor that returns 0 and edits the "
          "token or does nothing, or no callback after setcb(NULL, NULL)) leaves the configuration alone - tokens of both "
-         "keys; every verify is repeated on an identically configured checker without the callback and both verdicts are "
-         "logged. distinct = distinct scripts.",
+         "keys; context-only updates setcb(NULL, ctx) after a refusing / key-selecting callback (the callback stays), "
+         "after setcb(NULL, NULL) (refused); every verify is repeated on an identically configured checker without the "
+         "callback and both verdicts are logged. distinct = distinct scripts.",
     assumptions=ASSUME_COMMON,
     level_text="Programs are enumerated exhaustively up to the bound by TLC; on the specification the verdict is a "
                "function of the parsed token and the configuration after the callback, never of the callback's edits; "
@@ -354,6 +363,7 @@ PROPS["C05"] = dict(
     stages=lambda tier, seed: [
         mc("trees", "MC_C05", "MC_C05_%s.cfg" % tier, expand=G.c05_trees, target_ops=20000),
         mc("ecdsa", "MC_C05", "MC_C05_ec_%s.cfg" % tier, expand=G.repeat_tail(2, 500 if tier == "quick" else 20000, 250)),
+        mc("faults", "MC_C05", "MC_C05_fault.cfg", expand=G.c05_trees, dopts=dict(extra=("--fault", "--fault-only", "Generate"), timeout=60), target_ops=1),
     ],
     rule=
          "from MC_C05: (key, algorithm) pairs of every supported type x (signing provider, verifying provider) in "
@@ -365,8 +375,11 @@ PROPS["C05"] = dict(
          "must verify); generate, then verify on a checker holding the public form with a callback that reads header and "
          "claims. Integers beyond 2^53 are in the quick trees too. JSON trees are seeded random per case; what the "
          "builder was given, what the token carries and what the callback read are digested by one canonicaliser (sorted,"
-         " compact) after removing alg/typ/iat/nbf/exp, which are compared member by member. Stage 'ecdsa': 500 (quick) /"
-         " 20000 (thorough) generate+verify pairs per curve and signing provider; coverage.short_rs counts signatures "
+         " compact) after removing alg/typ/iat/nbf/exp, which are compared member by member. Stage 'faults': 4 algorithms"
+         " x both providers x 2 time configurations with EVERY allocation request made inside jwt_builder_generate "
+         "failing once (fault enumeration as in C17, restricted to that call): whatever token is returned although an "
+         "allocation failed carries what the builder was given plus alg/typ/iat/nbf/exp. Stage 'ecdsa': 500 (quick) / "
+         "20000 (thorough) generate+verify pairs per curve and signing provider; coverage.short_rs counts signatures "
          "whose r or s has a leading zero byte. distinct = distinct scripts.",
     assumptions=ASSUME_COMMON + ["JSON equality is decided on SHA-256 digests of jansson's canonical dump computed by the driver for all three sides"],
     level_text="The behaviour matrix (key/alg x provider pair x tree class x time configuration) is enumerated by TLC, "
@@ -398,18 +411,20 @@ PROPS["C12"] = dict(
          "(key loaded under either provider): every common (key, algorithm) pair (oct keys of 32..100 octets: equal to "
          "and longer than the hash output, up to and beyond the block size) x {valid, empty, garbage, not base64, flipped"
          " first/any bit, truncated, extended with zero/random bytes, signed over other text, other key, sibling "
-         "algorithm, ES: zero-extended r||s and DER} and header/payload altered after signing; (B) deterministic "
-         "algorithms (HS*, RS*, EdDSA): the same builder generates under provider 1 and provider 2, token digests must be"
-         " equal and each provider verifies both; randomised ones (PS*, ES*): cross acceptance; (C) all pairs of "
-         "set_crypto_ops/_t calls over 12 names (exact, case variants, padded, prefixes, unknown, empty) and ids -1..5, "
-         "99; (D) one driver process per JWT_CRYPTO value {openssl, gnutls, GnuTLS, 'gnutls ', mbedtls, '', x, "
-         "opensslgnutls, unset}. (E) history: an unusable JWKS member, a refused RS256 and a refused ES512 token under "
-         "either provider before the verdict comparison. Each matrix cell is concretised 2 (quick) / 60 (thorough) times."
-         " (F) private OKP keys whose x member is ANOTHER key's public half: identical tokens from both providers, mutual"
-         " acceptance, acceptance by the true public key. Stage 'rotation': sign with key A, free its keyring, load key B"
-         " (same type for six pairs, another type for three), sign, verify under both providers, 2..3 (quick) / up to 13 "
-         "(thorough) rotations per script - run with a zero ASan quarantine so that the freed key's address is reused at "
-         "once; the token must carry the current key's signature and both providers must accept it.",
+         "algorithm, ES: zero-extended r||s and DER} and header/payload altered after signing; (A') the same with key "
+         "attributes neither provider consumes (use, key_ops of six kinds) and the PRIVATE form of the key as "
+         "verification key; (B) deterministic algorithms (HS*, RS*, EdDSA): the same builder generates under provider 1 "
+         "and provider 2, token digests must be equal and each provider verifies both; randomised ones (PS*, ES*): cross "
+         "acceptance; (C) all pairs of set_crypto_ops/_t calls over 12 names (exact, case variants, padded, prefixes, "
+         "unknown, empty) and ids -1..5, 99; (D) one driver process per JWT_CRYPTO value {openssl, gnutls, GnuTLS, "
+         "'gnutls ', mbedtls, '', x, opensslgnutls, unset}. (E) history: an unusable JWKS member, a refused RS256 and a "
+         "refused ES512 token under either provider before the verdict comparison. Each matrix cell is concretised 2 "
+         "(quick) / 60 (thorough) times. (F) private OKP keys whose x member is ANOTHER key's public half: identical "
+         "tokens from both providers, mutual acceptance, acceptance by the true public key. Stage 'rotation': sign with "
+         "key A, free its keyring, load key B (same type for six pairs, another type for three), sign, verify under both "
+         "providers, 2..3 (quick) / up to 13 (thorough) rotations per script - run with a zero ASan quarantine so that "
+         "the freed key's address is reused at once; the token must carry the current key's signature and both providers "
+         "must accept it.",
     assumptions=ASSUME_COMMON,
     level_text="TLC enumerates the matrix and checks on the specification that verdicts and deterministic tokens do "
                "not depend on the provider variable and that the provider changes only on an exact name/id; each "
@@ -555,19 +570,23 @@ PROPS["C17"] = dict(
     level="fault_enumeration", exhaustive=True,
     stages=lambda tier, seed: [mc("scenarios", "MC_C17", "MC_C17_%s.cfg" % tier, dopts=dict(extra=("--fault",), timeout=60), target_ops=1)],
     rule=
-         "scenarios are behaviours of the specification printed by TLC from MC_C17: loading each key type through "
-         "several entry points (incl. a defective key, a non-JSON text, find/free_bad/item_free), builder scenarios "
-         "(claims and headers of every value type incl. JSON merge and getters, time offsets, callbacks setting claims "
-         "or the key, HS256/RS256/ES256/EdDSA/none), checker scenarios (accepting and rejecting tokens: bad signature, "
-         "expired, missing aud, unsigned-with-key; callback reading the token and selecting the key; expired / not-yet-"
-         "valid / wrong-issuer tokens whose claims the callback rewrites into acceptable ones), a generate-verify round "
-         "trip; on OpenSSL (quick; asymmetric checker scenarios also on GnuTLS) / both providers (thorough). For each "
-         "scenario the driver counts the allocation requests N made by libjwt and jansson through jwt_set_alloc's "
-         "allocator inside library calls and re-runs it once per k in 0..N-1 with request k returning NULL, each in a "
-         "forked child under ASan/UBSan, stopping after the operation in which the fault fired and then freeing "
-         "everything. A load that still reports success must yield the items of the fault-free run, including their "
-         "projected key material (PEM present and parseable, components equal). evaluations = judged events; "
-         "coverage.fault_runs = number of (scenario, k) runs; distinct_nontrivial = distinct scenarios.",
+         "scenarios are behaviours of the specification printed by TLC from MC_C17: loading each key type through several"
+         " entry points (incl. a defective key, a non-JSON text, find/free_bad/item_free), builder scenarios (claims and "
+         "headers of every value type incl. JSON merge and getters, time offsets, callbacks setting claims or the key, "
+         "HS256/RS256/ES256/EdDSA/none), checker scenarios (accepting and rejecting tokens: bad signature, expired, "
+         "missing aud, unsigned-with-key; callback reading the token and selecting the key; expired / not-yet-valid / "
+         "wrong-issuer tokens whose claims the callback rewrites into acceptable ones), a generate-verify round trip; on "
+         "OpenSSL (quick; asymmetric checker scenarios also on GnuTLS) / both providers (thorough). 'Reconfiguration' "
+         "scenarios repeat a configuration call on an object that already holds a value (replaced expectation, second "
+         "setkey / leeway / callback): after a configuration call that met the fault the REST of the scenario runs "
+         "without faults, and a checker must not accept a token that neither its old configuration (the scenario re-run "
+         "without that call) nor its new one accepts (clause state-after-failure). For each scenario the driver counts "
+         "the allocation requests N made by libjwt and jansson through jwt_set_alloc's allocator inside library calls and"
+         " re-runs it once per k in 0..N-1 with request k returning NULL, each in a forked child under ASan/UBSan, "
+         "stopping after the operation in which the fault fired and then freeing everything. A load that still reports "
+         "success must yield the items of the fault-free run, including their projected key material (PEM present and "
+         "parseable, components equal). evaluations = judged events; coverage.fault_runs = number of (scenario, k) runs; "
+         "distinct_nontrivial = distinct scenarios.",
     assumptions=ASSUME_COMMON + ["only allocations routed through jwt_set_alloc (libjwt and jansson) are failed; OpenSSL/GnuTLS internal allocations are not"],
     level_text="Exhaustive over the fault position k for every scenario: each operation of a faulted run must either "
                "give the fault-free result (same verdict / same decoded token content / same list) or report failure "
@@ -619,13 +638,14 @@ PROPS["C20"] = dict(
          "each output mode (plain, -v, -v -p CMD; short and long spellings) under the usual 1024-descriptor limit; "
          "jwt-generate | jwt-verify round trips for ten key/alg pairs (key with and without alg attribute, so that "
          "-a/--algorithm is exercised) x short/long option spelling on either side x --json x --no-iat, with -c/--claim "
-         "of every type; key2jwk on every fixture key file (RSA 512..4096, every curve incl. twelve EC keys whose x, y or"
-         " d has a leading zero byte, Ed25519, Ed448; private and public PEM; oct files of 32..512 bytes), and an "
-         "id-RSASSA-PSS key file (private and public): one key, imported by the library without error, same public and "
-         "private components (driver projection), fixed-width EC x/y/d; jwk2key of that JWKS, and the file it writes "
-         "converted again must still be the same key, of the same type (rsaEncryption / id-RSASSA-PSS); key2jwk with "
-         "several files in one invocation (every order of an oct, an RSA, an EC and an Ed25519 file, all pairs incl. "
-         "repeated types): the i-th JWK must denote the i-th file's key. distinct = distinct cells.",
+         "of every type, incl. integer claims beyond 32 bits (exp in 2100, nbf in 1840, 2^53 + 1); key2jwk on every "
+         "fixture key file (RSA 512..4096, every curve incl. twelve EC keys whose x, y or d has a leading zero byte, "
+         "Ed25519, Ed448; private and public PEM; oct files of 32..512 bytes), and an id-RSASSA-PSS key file (private and"
+         " public): one key, imported by the library without error, same public and private components (driver "
+         "projection), fixed-width EC x/y/d; jwk2key of that JWKS, and the file it writes converted again must still be "
+         "the same key, of the same type (rsaEncryption / id-RSASSA-PSS); key2jwk with several files in one invocation "
+         "(every order of an oct, an RSA, an EC and an Ed25519 file, all pairs incl. repeated types): the i-th JWK must "
+         "denote the i-th file's key. distinct = distinct cells.",
     assumptions=ASSUME_COMMON + ["tool output is decoded by the Python runner (bin/vtools.py), which logs and never judges; key identity is decided by the driver's projection against the key it exported"],
     level_text="The exit-status relation is model-checked on the tool machine for every count up to 520; every cell "
                "is executed against the real tools and the logged exit statuses, token shapes, member widths and key "
